@@ -365,6 +365,7 @@ func (w *world) cmdBackup(pr *proc, root *simfs.Node, opts BackupOptions) backup
 	}
 	sfs := simfs.New(root)
 	sfs.Park = w.cfg.FSPark
+	sfs.EOFWithData = w.cfg.FSPark // the last bytes may arrive together with io.EOF
 	w.srcMu.Lock()
 	w.src[pr.p.Name] = sfs
 	w.srcMu.Unlock()
